@@ -120,6 +120,12 @@ func (p *Parser) parseTransaction() *ast.Transaction {
 		if p.current.Type == TokenPipe {
 			tx.Payee = strings.TrimSpace(desc)
 			p.advance()
+			// The note is free text as well ("Shop | 7 apples").
+			switch p.current.Type {
+			case TokenText, TokenNewline, TokenEOF, TokenComment:
+			default:
+				p.current = p.lexer.RescanText(p.current)
+			}
 			if p.current.Type == TokenText {
 				tx.Note = strings.TrimSpace(p.current.Value)
 				p.advance()
